@@ -5,7 +5,8 @@ import numpy as np
 from common import q, z, coq_list, coq_str, coq_opt
 import oscgen as G
 
-PDG_H = [211, -211, 111, 321, -321, 2212, -2212, 2112, 22, 130, 310, 3122, 12, -14, 16, 11, -13, 9999999, 0, 523]
+PDG_H = [211, -211, 111, 321, -321, 2212, -2212, 2112, 22, 130, 310, 3122, 12, -14, 16, 11, -13, 9999999, 0, 523,
+         1000010020, -1000010020, 1000020040, 2212, 211]
 PDG_P = [21, 1, -1, 2, -2, 3, -3, 4, 5, -5, 22, 21, 6, 12, 9999999]
 MASSLESS = {22, 21, 12, -12, 14, -14, 16, -16, 18, -18}
 
@@ -38,7 +39,8 @@ def gen_doc(rng, ptype=None, max_events=5, max_mult=4):
                 E = "13"
             pdg = rng.choice(PDG_H if ptype == "hadron" else PDG_P)
             status = rng.choice([27, 0, 11, -1, 1])
-            rows.append([str(j), str(pdg), str(status), E, px, py, pz])
+            pid = j if rng.random() < 0.9 else 20000001 + j          # labels beyond 2^24 as well
+            rows.append([str(pid), str(pdg), str(status), E, px, py, pz])
         events.append({"rows": rows, "weight": rng.choice(["1", "0.5", "2.25e-3"]), "ep": rng.choice(["0", "0.25"])})
     return {"ptype": ptype, "sep": sep, "events": events, "sigma": rng.choice(["0.000314633", "1.5", "2.5e-3"]),
             "sigerr": rng.choice(["6.06164e-07", "0.125", "0"]), "final_newline": rng.random() < 0.7}
